@@ -63,3 +63,83 @@ theorem client_failed (C : Crypto) (c : CReader) (e : Err) (he : c.err = some e)
     simp [CReader.readS, CReader.writeToS, CReader.tunnelS, CReader.stepT, sticky_fact, he, failedOut]
 
 end SSV.Stream
+
+namespace SSV.Stream
+open SSV.Gen.C01
+
+theorem sstep_err_of_none (C : Crypto) (r : Reader) (op : ROp) :
+    (SReader.step C { r := r } op).2.err = (SReader.step C { r := r } op).1.hardErr ∧
+    (SReader.step C { r := r } op).1 = (r.step C op).1 := by
+  simp [SReader.step, sticky_fact]
+
+theorem prepend_hardErr (p : Bytes) (o : ROut) (h : ∃ ps e, o = .copied ps e) : (o.prepend p).hardErr = o.hardErr := by
+  obtain ⟨ps, e, rfl⟩ := h; rfl
+
+theorem initRead_err (C : Crypto) (c : CReader) (now : Int) : (initRead C c now).2.err = c.err := by
+  unfold initRead
+  simp only []
+  repeat' split
+  all_goals rfl
+
+theorem firstPayload_err (C : Crypto) (c : CReader) (len : Nat) : (firstPayload C c len).2.err = c.err := by
+  unfold firstPayload
+  repeat' split
+  all_goals rfl
+
+theorem cread_err (C : Crypto) (c : CReader) (now : Int) (n : Nat) (hr : c.r = none) : (c.read C now n).2.err = c.err := by
+  unfold CReader.read
+  rw [hr]
+  simp only []
+  have h1 := initRead_err C c now
+  cases hi : initRead C c now with
+  | mk x c1 =>
+    rw [hi] at h1
+    cases x with
+    | error e => exact h1
+    | ok len =>
+      simp only []
+      have h2 := firstPayload_err C c1 len
+      cases hp : firstPayload C c1 len with
+      | mk y c2 =>
+        rw [hp] at h2
+        cases y with
+        | error e => simp only []; rw [h2, h1]
+        | ok p =>
+          simp only []
+          split
+          · simp only []; rw [h2, h1]
+          · simp only []; rw [h2, h1]
+
+/-- the first call of a client conn (no reader yet, no read deadlines scripted) that fails with an error
+other than end of stream: either the failure is recorded — it consumed bytes of the response, or the
+read cipher already existed (prefix mismatch, segmented or truncated header, authentication, header
+checks, first payload chunk) — and the conn is failed for good (`client_failed`); or nothing of the
+response was consumed and the conn has neither a reader nor an error: the next call is a first call
+again, on the same bytes. -/
+theorem client_first_failure (C : Crypto) (c : CReader) (now : Int) (n : Nat) (e : Err)
+    (hr : c.r = none) (he : c.err = none) (ht : c.touts = [])
+    (hh : (c.readS C now n).1.hardErr = some e) :
+    (c.readS C now n).2.err = some e ∨
+    ((c.readS C now n).2.r = none ∧ (c.readS C now n).2.err = none ∧
+      ¬ ((c.readS C now n).2.segs.flatten.length < c.segs.flatten.length)) := by
+  have hf1 : readErrorsSticky = true := by decide
+  have hf2 : boundaryTimeoutRetryable = true := by decide
+  have herr := cread_err C c now n hr
+  unfold CReader.readS CReader.stepT at hh ⊢
+  simp only [hf1, hf2, he, hr, ht, ↓reduceIte, Bool.true_and] at hh ⊢
+  cases hrd : c.read C now n with
+  | mk o c' =>
+    rw [hrd] at herr
+    simp only [hrd] at hh ⊢
+    cases hcr : c'.r with
+    | some r' =>
+      left
+      simp only [hcr] at hh ⊢
+      simpa using hh
+    | none =>
+      simp only [hcr, Option.isSome_none, Bool.false_or, decide_eq_true_eq] at hh ⊢
+      by_cases hcons : c'.segs.flatten.length < c.segs.flatten.length
+      · left; rw [if_pos hcons]; exact hh
+      · right; rw [if_neg hcons]; exact ⟨hcr, by rw [herr, he], hcons⟩
+
+end SSV.Stream
